@@ -2604,6 +2604,9 @@ class sptensor:
                         (self.vals, value * np.ones((addsubs.shape[0], 1)))
                     )
                 else:
+                    # an index repeated inside a key list addresses its entry once
+                    _, first = np.unique(addsubs, axis=0, return_index=True)
+                    addsubs = addsubs[np.sort(first)]
                     self.subs = addsubs.astype(int)
                     self.vals = value * np.ones((addsubs.shape[0], 1))
             return
